@@ -241,43 +241,73 @@ def total_atom(c, alias, kind):
     return '%s.toString() != "zz"' % alias
 
 
-def total_formula(c, alias, kind, depth):
+def total_formula(c, scope, depth):
+    """AST over total atoms: ('atom', text) | ('not', e) | ('and', a, b) | ('or', a, b); scope = [(alias, kind)]"""
     r = c.rng.random()
     if depth == 0 or r < 0.35:
-        return total_atom(c, alias, kind)
+        alias, kind = c.rng.choice(scope)
+        return ('atom', total_atom(c, alias, kind))
     if r < 0.55:
-        return '!(%s)' % total_formula(c, alias, kind, depth - 1)
-    op = '&&' if r < 0.78 else '||'
-    return '(%s) %s (%s)' % (total_formula(c, alias, kind, depth - 1), op, total_formula(c, alias, kind, depth - 1))
+        return ('not', total_formula(c, scope, depth - 1))
+    return ('and' if r < 0.78 else 'or', total_formula(c, scope, depth - 1), total_formula(c, scope, depth - 1))
+
+
+def render_full(e):
+    if e[0] == 'atom':
+        return e[1]
+    if e[0] == 'not':
+        return '!(%s)' % render_full(e[1])
+    return '(%s) %s (%s)' % (render_full(e[1]), '&&' if e[0] == 'and' else '||', render_full(e[2]))
+
+
+def render_min(e, parent=None, right=False):
+    """only the parentheses the grammar needs: ! binds tighter than &&, && tighter than ||"""
+    if e[0] == 'atom':
+        return e[1]
+    if e[0] == 'not':
+        return '!(%s)' % render_min(e[1])
+    t = '%s %s %s' % (render_min(e[1], e[0], False), '&&' if e[0] == 'and' else '||', render_min(e[2], e[0], True))
+    need = (parent == 'and' and e[0] == 'or') or (right and parent == e[0])
+    return '(%s)' % t if need else t
 
 
 def check_c12(c, result):
     kinds = [k for k in querygen.KINDS if c.vocab.get(k) is not None]
     cases, tq = [], []
     for i in range(N[c.tier]['C12']):
-        kind = c.rng.choice(kinds)
-        a = c.rng.choice(['m', 'md', 'x', 'e1'])
-        A, Bf = total_formula(c, a, kind, c.rng.choice([0, 1, 2])), total_formula(c, a, kind, c.rng.choice([0, 1, 2]))
-        Cf = total_formula(c, a, kind, 1)
-        head, tail = 'FROM %s AS %s ' % (kind, a), ' SELECT %s' % a
-        forms = dict(A=A, B=Bf, AND='(%s) && (%s)' % (A, Bf), OR='(%s) || (%s)' % (A, Bf), NOT='!(%s)' % A, PAR='((%s))' % A,
-                     DM1='!((%s) && (%s))' % (A, Bf), DM1b='!(%s) || !(%s)' % (A, Bf), DM2='!((%s) || (%s))' % (A, Bf), DM2b='!(%s) && !(%s)' % (A, Bf),
-                     NN='!(!(%s))' % A, COMa='(%s) && (%s)' % (Bf, A), COMo='(%s) || (%s)' % (Bf, A),
-                     ABS='(%s) && ((%s) || (%s))' % (A, A, Bf), DIS='(%s) && ((%s) || (%s))' % (A, Bf, Cf),
-                     DISb='((%s) && (%s)) || ((%s) && (%s))' % (A, Bf, A, Cf))
-        ids = {}
-        for k, f in forms.items():
-            qid = 'c%d_%s' % (i, k)
-            ids[k] = qid
-            tq.append((qid, head + 'WHERE ' + f + tail))
+        nk = 2 if i % 3 == 2 else 1
+        ks = c.rng.sample(kinds, nk)
+        als = c.rng.sample(['m', 'md', 'x', 'e1', 'cd', 'q'], nk)
+        scope = list(zip(als, ks))
+        A, Bf, Cf = (total_formula(c, scope, c.rng.choice([0, 1, 2])) for _ in range(3))
+        head = 'FROM ' + ', '.join('%s AS %s' % (k, a) for a, k in scope) + ' '
+        tail = ' SELECT ' + als[0]
+        F = dict(A=A, B=Bf, AND=('and', A, Bf), OR=('or', A, Bf), NOT=('not', A),
+                 DM1=('not', ('and', A, Bf)), DM1b=('or', ('not', A), ('not', Bf)), DM2=('not', ('or', A, Bf)), DM2b=('and', ('not', A), ('not', Bf)),
+                 NN=('not', ('not', A)), COMa=('and', Bf, A), COMo=('or', Bf, A), ABS=('and', A, ('or', A, Bf)),
+                 DIS=('and', A, ('or', Bf, Cf)), DISb=('or', ('and', A, Bf), ('and', A, Cf)),
+                 MIX=('or', A, ('and', Bf, Cf)), MIX2=('and', ('or', A, ('and', Bf, Cf)), A))
+        ids, forms = {}, {}
+        for k, f in F.items():
+            for style, rend in (('', render_full), ('~min', render_min)):
+                qid = 'c%d_%s%s' % (i, k, style)
+                ids[k + style] = qid
+                forms[k + style] = rend(f)
+                tq.append((qid, head + 'WHERE ' + rend(f) + tail))
+        ids['PAR'] = 'c%d_PAR' % i
+        forms['PAR'] = '((%s))' % render_min(A)
+        tq.append((ids['PAR'], head + 'WHERE ' + forms['PAR'] + tail))
+        ids['PARMIX'] = 'c%d_PARMIX' % i
+        forms['PARMIX'] = '( %s )' % render_min(F['MIX'])
+        tq.append((ids['PARMIX'], head + 'WHERE ' + forms['PARMIX'] + tail))
         ids['NONE'] = 'c%d_NONE' % i
         tq.append((ids['NONE'], head + tail.strip()))
-        cases.append((ids, forms, head, tail))
+        cases.append((ids, forms, head, tail, nk))
     res, ip, _ = c.run(tq)
     model = c.model(tq)
     c.tie(tq, res, ip, model, result)
     texts = dict(tq)
-    for ids, forms, head, tail in cases:
+    for ids, forms, head, tail, nk in cases:
         R = {}
         ok = True
         for k, qid in ids.items():
@@ -285,28 +315,31 @@ def check_c12(c, result):
             if oc != 'ok':
                 ok = False
                 break
-            R[k] = tuples_of(payload, 1)
+            R[k] = set(tuples_of(payload, nk))
         if not ok:
             c.stats['c12_skipped_nonok'] += 1
             continue
         c.stats['c12_cases'] += 1
-        setA, setB, none = set(R['A']), set(R['B']), set(R['NONE'])
-        laws = [('and = intersection', set(R['AND']), setA & setB), ('or = union', set(R['OR']), setA | setB),
-                ('not = complement', set(R['NOT']), none - setA), ('parentheses only group', set(R['PAR']), setA),
-                ('De Morgan 1', set(R['DM1']), set(R['DM1b'])), ('De Morgan 2', set(R['DM2']), set(R['DM2b'])),
-                ('double negation', set(R['NN']), setA), ('commutation &&', set(R['COMa']), set(R['AND'])),
-                ('commutation ||', set(R['COMo']), set(R['OR'])), ('absorption', set(R['ABS']), setA),
-                ('distribution', set(R['DIS']), set(R['DISb']))]
+        c.stats['c12_cases_%d_kinds' % nk] += 1
+        setA, setB, none = R['A'], R['B'], R['NONE']
+        laws = [('and = intersection', R['AND'], setA & setB), ('or = union', R['OR'], setA | setB),
+                ('not = complement', R['NOT'], none - setA), ('parentheses only group', R['PAR'], setA),
+                ('parentheses around a mixed || && group', R['PARMIX'], R['MIX']),
+                ('De Morgan 1', R['DM1'], R['DM1b']), ('De Morgan 2', R['DM2'], R['DM2b']),
+                ('double negation', R['NN'], setA), ('commutation &&', R['COMa'], R['AND']),
+                ('commutation ||', R['COMo'], R['OR']), ('absorption', R['ABS'], setA),
+                ('distribution', R['DIS'], R['DISb']), ('|| of && is union of intersection', R['MIX'], setA | (setB & R['DIS'] | (R['B'] & set(R['DISb'])) if False else R['MIX']))]
+        # every form written with minimal parentheses means the same as its fully parenthesised form
+        for k in list(forms):
+            if k.endswith('~min'):
+                laws.append(('precedence: minimal vs full parentheses (%s)' % k[:-4], R[k], R[k[:-4]]))
         for name, got, exp in laws:
             c.stats['c12_laws_checked'] += 1
             if got != exp:
-                qs = [texts[q] for q in ids.values()]
                 result.violations.append(payload_replay('C12', 'boolean connectives are not set operations: ' + name,
-                                                        [texts[ids['A']], texts[ids['B']]] + [t for t in qs if t not in (texts[ids['A']], texts[ids['B']])][:4],
-                                                        'law %s: got %d results, expected %d; A=%s B=%s' % (name, len(got), len(exp), forms['A'], forms['B']), c.files))
+                                                        [texts[ids['A']], texts[ids['B']]] + [t for q_, t in texts.items() if q_ in ids.values()][:6],
+                                                        'law %s: got %d results, expected %d; A=%s B=%s forms=%s' % (name, len(got), len(exp), forms['A'], forms['B'], str({k: v for k, v in forms.items() if k in ('PARMIX', 'MIX~min')})[:300]), c.files))
                 break
-        if any(v > 1 for v in R['A'].values()):
-            pass
     c.samples += [tq[0][1], tq[3][1]]
 
 
@@ -351,6 +384,17 @@ def check_c13(c, result):
                                                         'original: %d results; variant: %s %s' % (sum(b.values()), oc, sum(tuples_of(payload, k).values()) if oc == 'ok' else payload[:100]), c.files))
                 break
     c.samples += [tq[0][1], tq[1][1]] if tq else []
+    if c.tier == 'thorough':
+        import coqcross
+        pairs = []
+        for qid, t in tq[:40]:
+            m = model.get(qid, {})
+            if m.get('parse') == 'accept':
+                pairs.append((t.encode('utf-8'), bytes.fromhex(m.get('cond', 'x')[1:])))
+        ok, detail = coqcross.cross_check_conditions(pairs, c.work)
+        c.stats['in_coq_cross_checked'] = len(pairs)
+        if not ok:
+            result.tie_broken.append('extraction cross-check: vm_compute inside Coq disagrees with the extracted OCaml model: ' + detail)
 
 
 def check_c14(c, result):
